@@ -213,6 +213,8 @@ class Parser:
             ty = None
             if self.accept(':'):
                 ty = self.parse_type()
+            if self.accept(';'):
+                return ('let', pat, ty, ('lit', 0, None))     # `let x;` — assigned later; 0 until then
             self.expect('=')
             e = self.parse_expr()
             self.expect(';')
@@ -237,6 +239,14 @@ class Parser:
             var = self.next()[1]
             self.expect('in')
             rev = False
+            # iterator over a slice: `for x in xs`, `for x in xs.iter_mut()`, `for x in xs.iter_mut().rev()`
+            save = self.i
+            if self.peek()[0] == 'id' and self.peek(1)[1] in ('{', '.'):
+                it = self.parse_postfix()
+                if self.peek()[1] == '{':
+                    b = self.parse_block()
+                    return ('foreach', var, it, b)
+                self.i = save
             paren = self.accept('(')
             lo = self.parse_expr(len(self.PREC) - 2)     # up to additive: `..` is not an operator here
             self.expect('..')
@@ -669,6 +679,14 @@ class Emitter:
                 for n in self.assigned(s[2][1], declared):
                     if n not in local and n not in out:
                         out.append(n)
+            elif s[0] == 'foreach':
+                it = s[2]
+                while it[0] == 'mcall':
+                    it = it[1]
+                for n in self.assigned(s[3][1], declared):
+                    n2 = it[1][0] if (n == s[1] and it[0] == 'path') else n
+                    if n2 not in local and n2 not in out:
+                        out.append(n2)
             elif s[0] == 'for':
                 for n in self.assigned(s[5][1], declared):
                     if n not in local and n not in out and n != s[1]:
@@ -864,6 +882,31 @@ class Emitter:
             return '()', ('tuple', [])
         s, rest = stmts[0], stmts[1:]
         k = s[0]
+        if k == 'foreach':
+            _, var, it, body = s
+            rev = False
+            while it[0] == 'mcall' and it[2] in ('iter', 'iter_mut', 'rev') and not it[3]:
+                if it[2] == 'rev':
+                    rev = not rev
+                it = it[1]
+            if not (it[0] == 'path' and len(it[1]) == 1 and env.get(it[1][0]) in ('slice', 'mutslice')):
+                raise TranslateError('unsupported iterator expression')
+            ys = it[1][0]
+            self.tmp = getattr(self, 'tmp', 0) + 1
+            idx = 'it%d' % self.tmp
+            elem = ('index', ('path', [ys]), ('path', [idx]))
+
+            def subst(node):
+                if isinstance(node, tuple):
+                    if node and node[0] == 'path' and node[1] == [var]:
+                        return elem
+                    return tuple(subst(x) for x in node)
+                if isinstance(node, list):
+                    return [subst(x) for x in node]
+                return node
+            nb = ('block', subst(body[1]))
+            return self.stmts([('for', idx, ('lit', 0, 'usize'), ('mcall', ('path', [ys]), 'len', []), rev, nb)] + rest,
+                              env, exp, result)
         if k == 'for':
             # for i in lo..hi { body }  ==>  let hi' = hi; let mut i = lo; while i < hi' { body; i += 1 }
             # for i in (lo..hi).rev()   ==>  let lo' = lo; let mut i = hi; while i > lo' { i -= 1; body }
@@ -1168,7 +1211,13 @@ def uint_items(repo):
 def kernel_items(repo):
     a = repo + '/src/algorithms/'
     return [{'file': a + 'add.rs', 'fn': 'adc_n', 'lean': 'adc_n', 'group': 'kernels'},
-            {'file': a + 'add.rs', 'fn': 'sbb_n', 'lean': 'sbb_n', 'group': 'kernels'}]
+            {'file': a + 'add.rs', 'fn': 'sbb_n', 'lean': 'sbb_n', 'group': 'kernels'},
+            {'file': a + 'mul.rs', 'fn': 'add_nx1', 'lean': 'add_nx1', 'group': 'kernels'},
+            {'file': a + 'mul.rs', 'fn': 'mul_nx1', 'lean': 'mul_nx1', 'group': 'kernels'},
+            {'file': a + 'mul.rs', 'fn': 'addmul_nx1', 'lean': 'addmul_nx1', 'group': 'kernels'},
+            {'file': a + 'mul.rs', 'fn': 'submul_nx1', 'lean': 'submul_nx1', 'group': 'kernels'},
+            {'file': a + 'shift.rs', 'fn': 'shift_left_small', 'lean': 'shift_left_small', 'group': 'kernels'},
+            {'file': a + 'shift.rs', 'fn': 'shift_right_small', 'lean': 'shift_right_small', 'group': 'kernels'}]
 
 
 GROUPS = [('core', 'Words', ('Ruint.Gen.Prelude',)),
